@@ -60,7 +60,7 @@ func VerifFinalContentIsNotified() {
 	var lastChange time.Time
 	exists := true
 	for i := 0; i < ops; i++ {
-		gap := vnd.IntRange("pause100ms", 0, 30)
+		gap := vnd.IntRange("pause100ms", 0, vnd.Bound("pause_max", 30))
 		time.Sleep(time.Duration(gap) * 100 * time.Millisecond)
 		switch vnd.Choose("op", vnd.Bound("op_kinds", 1)) {
 		case 0: // rewrite (or re-create) the file
